@@ -180,6 +180,15 @@ func (c *Ctx) Count(name string, n int64) {
 	c.mu.Unlock()
 }
 
+// Max keeps the largest value seen under the counter name.
+func (c *Ctx) Max(name string, n int64) {
+	c.mu.Lock()
+	if n > c.res.Counters[name] {
+		c.res.Counters[name] = n
+	}
+	c.mu.Unlock()
+}
+
 // Sample stores an actual case (capped).
 func (c *Ctx) Sample(s any) {
 	c.mu.Lock()
